@@ -16,9 +16,6 @@ import ClockBound.Model.Seqlock
 namespace ClockBound.SL
 open ClockBound
 
-def Ord.short : Ord → String
-  | .relaxed => "X" | .acquire => "A" | .release => "R" | .acqrel => "AR" | .seqcst => "SC"
-
 def Ord.ofShort : String → Option Ord
   | "X" => some .relaxed | "A" => some .acquire | "R" => some .release | "AR" => some .acqrel
   | "SC" => some .seqcst | _ => none
